@@ -110,12 +110,16 @@ def task_dict(t, slots=None):
     if slots:
         d['slots']     = slots
         d['partition'] = None
-    return {'uid'        : t['uid'],
-            'type'       : 'task',
-            'state'      : rps.AGENT_SCHEDULING_PENDING,
-            'origin'     : 'client',
-            'pilot'      : 'pilot.0000',
-            'description': d}
+    out = {'uid'        : t['uid'],
+           'type'       : 'task',
+           'state'      : rps.AGENT_SCHEDULING_PENDING,
+           'origin'     : 'client',
+           'pilot'      : 'pilot.0000',
+           'description': d}
+    if t.get('raptor_seen'):
+        # the task comes back from its raptor master to be executed here
+        out['raptor_seen'] = True
+    return out
 
 
 def slot_view(slots):
@@ -267,6 +271,19 @@ class Sim(object):
     def control(self, cmd, arg):
         self.env.publish(rpc.CONTROL_PUBSUB, {'cmd': cmd, 'arg': arg})
         self.trace.append(['control', cmd, arg])
+
+    RAPTOR = 'raptor.0'
+    raptor_registered = False
+
+    def raptor(self, register):
+        '''the raptor master registers / unregisters its request queue'''
+        if register:
+            self.control('register_raptor_queue',
+                         {'name': self.RAPTOR, 'queue': 'raptor_q',
+                          'addr': 'mem://raptor/queue'})
+        else:
+            self.control('unregister_raptor_queue', {'name': self.RAPTOR})
+        self.raptor_wanted = register
 
     def pump(self, n=None):
         k = 0
